@@ -28,6 +28,14 @@ def run(cx, chk):
     chk.rule("C15.R4", "on_evict is written only by the constructor; both callback constructors pass Some(cb); clone copies it")
     chk.rule("C15.R6", "callbacks are never invoked from inside an iteration over the hash index (they fire in recency order)")
     chk.rule("C15.R5", "when the callback runs the cache is consistent: departing node unlinked+unindexed, every other node linked+indexed, none in flight")
+    chk.rule("C15.R7", "a clone reports its departures to a clone of the original's callback: on every path of RawLRU::clone the new cache's on_evict derives from self.on_evict (engine of C16.R2)")
+    from . import c16
+    from .lib.report import Relabel
+    for cfg, F in cx.cfgs():
+        fcl = [F.fns[i] for im in F.doc["impls"] if (im["trait"] or "").endswith("clone::Clone") and im["self_head"] == RAW for i in im["items"] if i in F.fns and F.fns[i]["name"] == "clone"]
+        if len(fcl) != 1:
+            raise AnalysisError("C15.R7: RawLRU::clone not found in %s" % cfg)
+        c16.rawlru_clone(cx, Relabel(chk, {"C16.R2": "C15.R7"}, keep=lambda key: "|on_evict" in key or key.endswith("clone")), cfg, F, fcl[0])
     for cfg, F in cx.cfgs():
         r1(cx, chk, cfg, F)
         r3(cx, chk, cfg, F)
